@@ -145,6 +145,7 @@ Definition sexec (s : sst) (o : op) : sst * out :=
       let set := sslot s si in
       let buf := sslot s d in
       if eq_opt set buf then (s, ORet 0) else
+      if tmismatch (skind_at s) set buf then (s, OE) else      (* a typed buffer is not replaced by an untyped one *)
       let '(s1, ok) := s_share s si d in
       (s1, if ok then ORet ((if is_none buf then 0 else 2) + (if is_none set then 0 else 1))%N else OE)
   | OArrClear d => (sput s d None, ORet (if is_none (sslot s d) then 0 else 2))
@@ -166,6 +167,7 @@ Definition sexec (s : sst) (o : op) : sst * out :=
           | Some x =>
               let set := sslot s a in
               if eq_opt set (sinner x) then (s, ORet 0) else
+              if tmismatch (skind_at s) set (sinner x) then (s, OE) else
               if shareable_opt s set
               then (sset_inner s o set,
                     ORet ((if is_none (sinner x) then 0 else 2) + (if is_none set then 0 else 1))%N)
@@ -204,6 +206,50 @@ Definition sexec (s : sst) (o : op) : sst * out :=
           end
       | None => (s, OX)
       end
+  | ORawModify m =>                  (* the object owns an unshared stage buffer afterwards *)
+      match sslot s m with
+      | Some o =>
+          match nth_error (sobjs s) o with
+          | Some x =>
+              match sinner x with
+              | Some b => if (stotal s b <? 2)%N then (s, OD)
+                          else let '(s1, id) := snew s KStage None in (sset_inner s1 o (Some id), OD)
+              | None => let '(s1, id) := snew s KStage None in (sset_inner s1 o (Some id), OD)
+              end
+          | None => (s, OX)
+          end
+      | None => (s, OX)
+      end
+  | ORawAdvance m =>
+      match sslot s m with
+      | Some o =>
+          match nth_error (sobjs s) o with
+          | Some x =>
+              match sinner x with
+              | Some _ => (s, OD)
+              | None => let '(s1, id) := snew s KStage None in (sset_inner s1 o (Some id), OD)
+              end
+          | None => (s, OX)
+          end
+      | None => (s, OX)
+      end
+  | ORawGet m a =>                   (* slot a := what the object owns *)
+      match sslot s m with
+      | Some o =>
+          match nth_error (sobjs s) o with
+          | Some x =>
+              let set := sinner x in
+              let buf := sslot s a in
+              if eq_opt set buf then (s, ORet 0) else
+              if tmismatch (skind_at s) set buf then (s, OE) else
+              if shareable_opt s set
+              then (sput s a set, ORet ((if is_none buf then 0 else 2) + (if is_none set then 0 else 1))%N)
+              else (s, OE)
+          | None => (s, OX)
+          end
+      | None => (s, OX)
+      end
+  | ORawCall _ fails => (s, if fails then OE else OD)
   end.
 
 Definition sstep (s : sst) (o : op) : sst * out :=
